@@ -1050,11 +1050,13 @@ fn run_c20_direct(input: RunInput) -> ScenFuture {
         }
         let log: Arc<Mutex<Vec<u64>>> = Default::default();
         let log2 = log.clone();
+        // the wrapped service counts as invoked the moment `call` is entered (a service may do its
+        // work there - spawn it, queue it - rather than in the future it returns)
         let inner = tower::service_fn(move |req: Request<Bytes>| {
             let log = log2.clone();
+            let id: u64 = req.headers().get("id").and_then(|v| v.parse().ok()).unwrap_or(u64::MAX);
+            log.lock().unwrap().push(id);
             async move {
-                let id: u64 = req.headers().get("id").and_then(|v| v.parse().ok()).unwrap_or(u64::MAX);
-                log.lock().unwrap().push(id);
                 let d: u64 = req.headers().get("dur-ms").and_then(|v| v.parse().ok()).unwrap_or(0);
                 tokio::time::sleep(Duration::from_millis(d)).await;
                 Ok::<_, Infallible>(Response::new(Bytes::from(format!("served-{id}"))))
@@ -1078,6 +1080,13 @@ fn run_c20_direct(input: RunInput) -> ScenFuture {
             let mut req = Request::new(Bytes::new()).with_header("id", id.to_string()).with_header("dur-ms", r.gen_range(0..20).to_string());
             if let Some(s) = sender {
                 req = req.with_extension(s);
+            }
+            // whatever else a request carries (here: the direction marker anemo attaches) has no
+            // say in the allow-list's verdict
+            match r.gen_range(0..4) {
+                0 => req = req.with_extension(anemo::Direction::Inbound),
+                1 => req = req.with_extension(anemo::Direction::Outbound),
+                _ => {}
             }
             let want = if closure_auth {
                 // closure authorizer: decision and refusal response are carried by headers
